@@ -143,6 +143,23 @@ def rule_args(chk):
                 problems.append("the bound arguments are not the start fields of the logged action")
     chk.req(not problems, "C18.args", "log_call.logging_wrapper:start-fields-are-the-bound-arguments", chk.where(w),
             good="start fields = getcallargs(f, *args, **kwargs) minus self, restricted to include_args", fail="; ".join(problems))
+    # the whitelist used by the wrapper is the one given to log_call
+    inc_name = "include_args"
+    for fn_ in (lc, w):
+        for st_ in stores_to_name(fn_, inc_name):
+            vals = [v for v in assigned_values(fn_, inc_name) if v is not None]
+            truthy = any(isinstance(v, ast.IfExp) and isinstance(v.test, ast.Name) and v.test.id == inc_name for v in vals) or any(
+                isinstance(v, ast.BoolOp) for v in vals)
+            if truthy:
+                chk.bad("C18.args", "log_call:include_args-used-as-given", chk.where(fn_, getattr(st_, "lineno", fn_.lineno)),
+                        "include_args is rebound through a truthiness test (%s): an empty whitelist ('log no arguments') becomes 'no whitelist' and every argument is logged"
+                        % unparse(vals[0])[:70])
+            else:
+                vs = [unparse(v)[:50] for v in vals]
+                okconv = all(isinstance(v, ast.IfExp) and isinstance(v.test, ast.Compare) and "None" in unparse(v.test) for v in vals) and vals
+                if not okconv:
+                    raise AnalysisError("log_call rebinds include_args in a way the analyser does not model: %s" % vs)
+            break
     # decoration-time validation of include_args
     dcfg = ctx.cfg(lc)
     raises = [n for n in dcfg.live if n.kind == "raise_stmt" and "ValueError" in unparse(n.ast)]
